@@ -364,37 +364,16 @@ func (iv integerValue) ReflectTo(c px.Context, value reflect.Value) {
 	case reflect.Interface:
 		value.Set(reflect.ValueOf(int64(iv)))
 	case reflect.Ptr:
-		switch value.Type().Elem().Kind() {
-		case reflect.Int64:
-			v := int64(iv)
-			value.Set(reflect.ValueOf(&v))
-		case reflect.Int:
-			v := int(iv)
-			value.Set(reflect.ValueOf(&v))
-		case reflect.Int8:
-			v := int8(iv)
-			value.Set(reflect.ValueOf(&v))
-		case reflect.Int16:
-			v := int16(iv)
-			value.Set(reflect.ValueOf(&v))
-		case reflect.Int32:
-			v := int32(iv)
-			value.Set(reflect.ValueOf(&v))
-		case reflect.Uint:
-			v := uint(iv)
-			value.Set(reflect.ValueOf(&v))
-		case reflect.Uint8:
-			v := uint8(iv)
-			value.Set(reflect.ValueOf(&v))
-		case reflect.Uint16:
-			v := uint16(iv)
-			value.Set(reflect.ValueOf(&v))
-		case reflect.Uint32:
-			v := uint32(iv)
-			value.Set(reflect.ValueOf(&v))
-		case reflect.Uint64:
-			v := uint64(iv)
-			value.Set(reflect.ValueOf(&v))
+		// a new integer of the destination's element type (it may be a defined type such as `type Port uint16`, to which
+		// a *uint16 is not assignable); SetInt and SetUint truncate to the width like the conversions int8(iv), uint8(iv)
+		p := reflect.New(value.Type().Elem())
+		switch p.Elem().Kind() {
+		case reflect.Int, reflect.Int8, reflect.Int16, reflect.Int32, reflect.Int64:
+			p.Elem().SetInt(int64(iv))
+			value.Set(p)
+		case reflect.Uint, reflect.Uint8, reflect.Uint16, reflect.Uint32, reflect.Uint64:
+			p.Elem().SetUint(uint64(iv))
+			value.Set(p)
 		default:
 			ok = false
 		}
